@@ -55,6 +55,17 @@ def posToSpan (first : Str) (last : Str) : Except PErr Span3 :=
 
 def colon (a b : Str) : Str := a ++ ':' :: b
 
+/-- The paired case of `get_bindings`: `zip(captures["SUFFIX"], captures["POS"])`. -/
+def pairBindings (label : Str) : List (Str × Str) → Except PErr (List Occ)
+  | [] => .ok []
+  | (sfx, p) :: rest =>
+    match posToSpan p p with
+    | .error e => .error e
+    | .ok sp =>
+      match pairBindings label rest with
+      | .error e => .error e
+      | .ok l => .ok ((colon label sfx, sp) :: l)
+
 /-- `get_bindings(label_prefix, captures)` with `captures["POS"]` non-empty (first :: rest) and
 `captures.get("SUFFIX")` (`[]` when absent). -/
 def getBindings (label : Str) (pos0 : Str) (posRest : List Str) (suffix : List Str) :
@@ -62,11 +73,15 @@ def getBindings (label : Str) (pos0 : Str) (posRest : List Str) (suffix : List S
   let pos := pos0 :: posRest
   let last := pos.getLast (by simp [pos])
   if suffix = [] then
-    (posToSpan pos0 last).map fun sp => [(label, sp)]
+    match posToSpan pos0 last with
+    | .error e => .error e
+    | .ok sp => .ok [(label, sp)]
   else if pos.length = suffix.length then
-    (suffix.zip pos).mapM fun (sfx, p) => (posToSpan p p).map fun sp => (colon label sfx, sp)
+    pairBindings label (suffix.zip pos)
   else
-    (posToSpan pos0 last).map fun sp => suffix.map fun sfx => (colon label sfx, sp)
+    match posToSpan pos0 last with
+    | .error e => .error e
+    | .ok sp => .ok (suffix.map fun sfx => (colon label sfx, sp))
 
 /-- The span of the `ast_construction:*` label: `Span(1, source.count("\n") + 1)`. -/
 def errorSpan (source : Str) : Nat × Nat := (1, source.count '\n' + 1)
